@@ -19,6 +19,7 @@ Whole executions follow by induction on the number of block transitions
 -/
 import EtkVerif.Cfg.Lemmas
 import EtkVerif.Annot.Total
+import EtkVerif.Cfg.Pipeline
 namespace EtkVerif.C05
 open Annot Smt Cfg Evm
 
@@ -81,5 +82,25 @@ theorem C05_path (t : OpTable) (bs : List Blocks.Block) (anns : List Annotated) 
     cases he with
     | head => rw [← hn]; exact C05_refined t bs anns hS g g' hg sat hsat hr i b a hb ha E ω entry hd o ho
     | tail _ h => cases h
+
+/-- The hypothesis `Setup` of the theorems above is what the pipeline's first stages
+establish on raw code bytes (`Pipeline.blocks` = disassemble, separate): so C05
+holds for every byte string of at most 65536 bytes whose blocks stay within the
+annotator's variable budget. -/
+theorem C05_pipeline_setup (code : List Nat) (hb : ∀ b ∈ code, b < 256) (hlen : code.length ≤ 65536)
+    (hbudget : ∀ b ∈ Pipeline.blocks code, popBudget Gen.cancun b.ops ≤ 65535) :
+    ∃ anns, Pipeline.annotateAll Gen.cancun (Pipeline.blocks code) = .ok anns ∧
+      Setup Gen.cancun (Pipeline.blocks code) anns :=
+  Pipeline.pipeline_setup code hb hlen hbudget
+
+/-- `successor` treats a jump destination as valid exactly when a block that begins
+with a jumpdest starts there; for the pipeline's blocks that is exactly "the linear
+sweep of the code has a `jumpdest` instruction at that offset" — the EVM's notion
+(relative to the sweep). -/
+theorem C05_jumpdests (code : List Nat) (hb : ∀ b ∈ code, b < 256) :
+    (Pipeline.blocks code).flatMap (·.ops) = ((Disasm.decodeAll Gen.cancun code).1).map (·.2) ∧
+    ∀ d : Nat, (∃ b ∈ Pipeline.blocks code, b.offset = d ∧ ∃ i, b.ops.head? = some i ∧ i.op = 0x5b) ↔
+               (∃ imm, (d, (⟨0x5b, imm⟩ : Disasm.Instr)) ∈ (Disasm.decodeAll Gen.cancun code).1) :=
+  Pipeline.pipeline_jumpdests code hb
 
 end EtkVerif.C05
